@@ -28,6 +28,7 @@ L.LEAN_TYPE.update({
     "Cls": "String", "ClsOpt": "Option String", "VC": "String", "TRange": "String × List TCon",
     "Str": "List Char", "StrOpt": "Option (List Char)", "StrList": "List (List Char)", "StrPair": "List Char × List Char",
     "Str3": "List Char × List Char × List Char", "TCon": "TCon", "TConList": "List TCon", "Dict2": "List Char × List Char",
+    "TRangeS": "List Char × List TCon", "Dict2List": "List (List Char × List Char)", "RangeDict": "List Char × List (List Char × List Char)",
 })
 
 
@@ -295,6 +296,53 @@ class RangeTextTr(TextTr):
         return super().block(stmts, env, fall)
 
 
+class RangeStrTr(TextTr):
+    """`VersionRange.__str__` and `.to_dict`: a range is its scheme and its constraint tuple; `sorted` is the Layer-B
+    parameter `sortT`; `str(c)` and `c.to_dict()` are the translated methods of the constraint"""
+    hdr = "(mk : List Char → Except TErr (List Char)) (sortT : List TCon → Except TErr (List TCon))"
+    hargs = "mk sortT"
+
+    def expr(self, node, env):
+        fn = self.fn
+        if isinstance(node, ast.Attribute) and isinstance(node.value, ast.Name) and env.get(node.value.id) == "TRangeS":
+            if node.attr == "scheme":
+                return "%s.1" % node.value.id, "Str", True
+            if node.attr == "constraints":
+                return "%s.2" % node.value.id, "TConList", True
+        if isinstance(node, ast.Call):
+            f = node.func
+            if isinstance(f, ast.Name) and f.id == "sorted" and len(node.args) == 1 and not node.keywords:
+                t, ty, p = self.expr(node.args[0], env)
+                if ty == "TConList" and p:
+                    return "(sortT %s)" % t, "TConList", False
+            # sep.join(str(c) for c in xs)
+            if isinstance(f, ast.Attribute) and f.attr == "join" and isinstance(f.value, ast.Constant) and isinstance(f.value.value, str) \
+                    and len(node.args) == 1 and isinstance(node.args[0], (ast.GeneratorExp, ast.ListComp)):
+                g = node.args[0]
+                if len(g.generators) == 1 and not g.generators[0].ifs and isinstance(g.generators[0].target, ast.Name) \
+                        and isinstance(g.elt, ast.Call) and isinstance(g.elt.func, ast.Name) and g.elt.func.id == "str" \
+                        and len(g.elt.args) == 1 and isinstance(g.elt.args[0], ast.Name) and g.elt.args[0].id == g.generators[0].target.id:
+                    t, ty, p = self.expr(g.generators[0].iter, env)
+                    if ty == "TConList":
+                        v, w = fn.tmp(), fn.tmp()
+                        src = ".ok %s" % t if p else t
+                        return ("(%s >>= fun %s => (%s.mapM (fun c => vc_str mk c)) >>= fun %s => .ok (join %s %s))"
+                                % (src, v, v, w, lit(f.value.value), w)), "Str", False
+            if isinstance(f, ast.Name) and f.id == "dict" and not node.args and [k.arg for k in node.keywords] == ["scheme", "constraints"]:
+                a, at, ap = self.expr(node.keywords[0].value, env)
+                b, bt, bp = self.expr(node.keywords[1].value, env)
+                if at == "Str" and bt == "Dict2List" and ap and bp:
+                    return "(%s, %s)" % (a, b), "RangeDict", True
+        if isinstance(node, ast.ListComp) and len(node.generators) == 1 and not node.generators[0].ifs \
+                and isinstance(node.generators[0].target, ast.Name) and isinstance(node.elt, ast.Call) \
+                and isinstance(node.elt.func, ast.Attribute) and node.elt.func.attr == "to_dict" and not node.elt.args \
+                and isinstance(node.elt.func.value, ast.Name) and node.elt.func.value.id == node.generators[0].target.id:
+            t, ty, p = self.expr(node.generators[0].iter, env)
+            if ty == "TConList" and p:
+                return "(%s.mapM (fun c => vc_to_dict mk c))" % t, "Dict2List", False
+        return super().expr(node, env)
+
+
 class AdvTr(RangeTextTr):
     """The advisory converters (`build_constraint_from_github_advisory_string`, `build_range_from_github_advisory_constraint`,
     `build_range_from_snyk_advisory_string`): the scheme is looked up in the regenerated registry, the two comparator
@@ -446,6 +494,8 @@ JOBS = [
      [("string", "Str")], "OptPair", ["PyTextRemoveSpaces"]),
     ("version_range.py", "from_string", "VersionRange", "PyTextRangeFromString", "vr_from_string",
      [("vers", "Str"), ("simplify", "Bool"), ("validate", "Bool")], "TRange", ["PyTextConFromString"]),
+    ("version_range.py", "__str__", "VersionRange", "PyTextRangeStr", "vr_str", [("self", "TRangeS")], "Str", ["PyTextConStr"]),
+    ("version_range.py", "to_dict", "VersionRange", "PyTextRangeToDict", "vr_to_dict", [("self", "TRangeS")], "RangeDict", ["PyTextConToDict"]),
     ("version_range.py", "build_constraint_from_github_advisory_string", None, "PyTextGithubCon", "py_github_constraint",
      [("scheme", "Str"), ("string", "Str")], "TCon", ["PyTextSplitReq", "Text.Advisory"]),
     ("version_range.py", "build_range_from_github_advisory_constraint", None, "PyTextGithubRange", "py_github_range",
@@ -454,6 +504,7 @@ JOBS = [
      [("scheme", "Str"), ("string", "StrList")], "TRange", ["PyTextSplitReq", "PyTextSplitReqBracket", "Text.Advisory"]),
 ]
 ADVISORY = {"py_github_constraint", "py_github_range", "py_snyk_range"}
+RANGE_STR = {"vr_str", "vr_to_dict"}
 
 
 def generate(src_dir):
@@ -469,7 +520,7 @@ def generate(src_dir):
             fdef = L._find(trees[src], pyname, cls)
             # parameters the typed model does not have (`cls`, `version_class`) are not Lean parameters
             text = L.translate_function(fdef, lean, params, ret, {}, {}, src,
-                                        tr_class=RangeTextTr if lean == "vr_from_string" else (AdvTr if lean in ADVISORY else TextTr))
+                                        tr_class=RangeTextTr if lean == "vr_from_string" else (AdvTr if lean in ADVISORY else (RangeStrTr if lean in RANGE_STR else TextTr)))
             out.append(text)
             status["text:" + key] = "translated"
         except (Unsupported, StopIteration, OSError) as e:
